@@ -311,25 +311,58 @@ Proof.
   - exact Hl.
 Qed.
 
-(* an exit after a prefix that ran normally *)
-Lemma exit_pre {A} ctx sc sc1 e e1 st st1 F F1 c c0 c1 E stL b1 E1 stL1 b2 (r : SyltSem.res A) st' :
-  okstepS sc sc1 e1 st1 F c c0 E stL b1 E1 stL1 F1 -> rel sc e st E stL -> sext sc e e1 -> incl sc sc1 ->
-  exit_post pv bound ctx sc1 e1 c0 c1 E1 stL1 b2 r st' -> c <= c0 -> c0 <= c1 ->
-  exit_post pv bound ctx sc e c c1 E stL (b1 ++ b2) r st'.
+(* an exit after a prefix that ran normally; the ranges of both parts lie in [lo, hi) *)
+Lemma exit_pre_gen {A} ctx sc sc1 e e1 st st1 F F1 a b a2 b2 lo hi E stL b1 E1 stL1 bl2 (r : SyltSem.res A) st' :
+  okstepS sc sc1 e1 st1 F a b E stL b1 E1 stL1 F1 -> rel sc e st E stL -> sext sc e e1 -> incl sc sc1 ->
+  exit_post pv bound ctx sc1 e1 a2 b2 E1 stL1 bl2 r st' -> lo <= a -> b <= hi -> lo <= a2 -> b2 <= hi ->
+  exit_post pv bound ctx sc e lo hi E stL (b1 ++ bl2) r st'.
 Proof.
-  intros (Hx1 & Hf1 & Hr1 & Hn1 & Hk1) Hrel Hse Hinc (rl & Hx2 & Hok) Ha Hb.
+  intros (Hx1 & Hf1 & Hr1 & Hn1 & Hk1) Hrel Hse Hinc (rl & Hx2 & Hok) Hla Hbh Hla2 Hbh2.
   exists rl. split; [eapply ExecS_app; eassumption|].
-  assert (Hback : forall stL', rel sc1 e1 st' E1 stL' -> xkeep bound c0 c1 E1 stL1 stL' ->
-                    rel sc e st' E stL' /\ xkeep bound c c1 E stL stL').
+  assert (Hback : forall stL', rel sc1 e1 st' E1 stL' -> xkeep bound a2 b2 E1 stL1 stL' ->
+                    rel sc e st' E stL' /\ xkeep bound lo hi E stL stL').
   { intros stL' Hr [Hnc Hc]. split.
     - eapply (rel_restrict sc e st e st' E E1 stL stL'); [exact Hrel | eapply rel_shrink; eassumption | exact Hk1 |].
       pose proof (wr_ncell _ _ _ _ _ _ _ Hf1). lia.
     - split; [pose proof (wr_ncell _ _ _ _ _ _ _ Hf1); lia|].
       intros t p Hbt Hr' Hp. rewrite (Hc t p Hbt); [| lia | apply (wr_incl _ _ _ _ _ _ _ Hf1); assumption].
       apply (wr_cells _ _ _ _ _ _ _ Hf1 t p Hbt); [lia | exact Hp]. }
-  destruct r as [a|o|[| |v]]; cbn [exit_ok] in *; try contradiction; try exact Hok.
+  destruct r as [x|o|[| |v]]; cbn [exit_ok] in *; try contradiction; try exact Hok.
   - destruct Hok as (E' & stL' & -> & Hr & Hk). exists E', stL'. split; [reflexivity | apply Hback; assumption].
   - destruct Hok as (E' & stL' & -> & Hr & Hk). exists E', stL'. split; [reflexivity | apply Hback; assumption].
+Qed.
+
+Lemma exit_pre {A} ctx sc sc1 e e1 st st1 F F1 c c0 c1 E stL b1 E1 stL1 b2 (r : SyltSem.res A) st' :
+  okstepS sc sc1 e1 st1 F c c0 E stL b1 E1 stL1 F1 -> rel sc e st E stL -> sext sc e e1 -> incl sc sc1 ->
+  exit_post pv bound ctx sc1 e1 c0 c1 E1 stL1 b2 r st' -> c <= c0 -> c0 <= c1 ->
+  exit_post pv bound ctx sc e c c1 E stL (b1 ++ b2) r st'.
+Proof. intros H1 H2 H3 H4 H5 Ha Hb. eapply exit_pre_gen; try eassumption; lia. Qed.
+
+Lemma xkeep_cells_ext c c' E stL stc stL' :
+  wfenv E stL -> cells_ext stL stc -> xkeep bound c c' E stc stL' -> xkeep bound c c' E stL stL'.
+Proof.
+  intros Hwf Hx [Hn Hc]. split; [destruct Hx as (_ & _ & _ & _ & _ & _ & Hl & _); lia|].
+  intros t p Hbt Hr Hp. rewrite (Hc t p Hbt Hr Hp). apply Hx. eapply wf_alloc; eassumption.
+Qed.
+
+(* an exit inside the chosen branch of an if leaves the if the same way *)
+Lemma exit_if {A} ctx sc e c c' E stL cnd t f vc stc (r : SyltSem.res A) st' :
+  wfenv E stL -> Eval E cnd stL (ROk vc stc) -> cells_ext stL stc -> nolabel (if truthy vc then t else f) ->
+  exit_post pv bound ctx sc e c c' E stc (if truthy vc then t else f) r st' ->
+  exit_post pv bound ctx sc e c c' E stL [SIf cnd t f] r st'.
+Proof.
+  intros Hwf Hev Hx Hnl (rl & Hxs & Hok).
+  pose proof (ExecBlock_of_ExecS_nil _ _ _ _ Hxs Hnl) as Hb.
+  destruct r as [a|o|[| |v]]; cbn [exit_ok] in Hok; try contradiction.
+  - destruct Hok as (ev & stL' & -> & Htr). exists (RErr ev stL'). split.
+    + apply XS_stop; [eapply Exec_if_err; eassumption | intros []].
+    + cbn [exit_ok]. eauto.
+  - destruct Hok as (E' & stL' & -> & Hr & Hk). exists (ROk (E, SigBreak) stL'). split.
+    + apply XS_stop; [eapply Exec_if; eassumption | intros []].
+    + cbn [exit_ok]. exists E, stL'. split; [reflexivity | split; [exact Hr | eapply xkeep_cells_ext; eassumption]].
+  - destruct Hok as (E' & stL' & -> & Hr & Hk). exists (ROk (E, SigGoto (fmt_label ctx)) stL'). split.
+    + apply XS_stop; [eapply Exec_if; eassumption | intros []].
+    + cbn [exit_ok]. exists E, stL'. split; [reflexivity | split; [exact Hr | eapply xkeep_cells_ext; eassumption]].
 Qed.
 
 End Sim.
